@@ -40,7 +40,7 @@ func init() {
 		for i := 0; i < n; i++ {
 			ti := types[i%len(types)]
 			cr := r.fork()
-			v := u.genMsg(cr, ti, 'm', genOpts{depth: 3, unknownOK: true})
+			v := u.genMsgCapped(cr, ti, genOpts{depth: 3, unknownOK: true})
 			m, err := u.build(ti, v, buildOpts{})
 			if err != nil {
 				continue
